@@ -709,6 +709,42 @@ def run_spans(ck):
     run_utf8(ck)
 
 
+def run_zone_census(ck):
+    """the modelling assumption behind SpansZone.decode_in_zone: on the span write path the only time.Time is the one onSpan builds with time.Unix
+    (modelled), and nothing reads the zone of the process or the clock; a source census over the files of the path (reads $VERIF_REPO)"""
+    import vcheck
+    zone_read = re.compile(r"\btime\.(Now|Local|LoadLocation|FixedZone|Date|Since|Until)\b|\.(Local|In|Zone|Location)\(")
+    found = []
+
+    def code_lines(path):
+        try:
+            txt = open(os.path.join(vcheck.REPO, path)).read()
+        except OSError as ex:
+            found.append("%s: %s" % (path, ex))
+            return []
+        return [(n + 1, l.split("//")[0]) for n, l in enumerate(txt.split("\n"))]
+    for path in ("writer/utils/unmarshal/otlpUnmarshal.go", "writer/utils/unmarshal/zipkinJsonUnmarshal.go", "writer/service/impl/tempoInsertService.go",
+                 "writer/service/colAdaptors.go"):
+        for n, l in code_lines(path):
+            if zone_read.search(l) or re.search(r"\btime\.Unix\w*\(", l):
+                found.append("%s:%d: %s" % (path, n, l.strip()[:120]))
+    body, inside = [], False
+    for n, l in code_lines("writer/utils/unmarshal/builder.go"):
+        if l.startswith("func (p *parserDoer) onSpan("):
+            inside = True
+        elif inside and l.startswith("}"):
+            break
+        if inside:
+            body.append((n, l))
+    makers = [(n, l) for n, l in body if re.search(r"\btime\.\w+\(", l)]
+    for n, l in body:
+        if zone_read.search(l) or re.search(r"\btime\.(?!Unix\()\w+\(", l):
+            found.append("writer/utils/unmarshal/builder.go:%d: %s" % (n, l.strip()[:120]))
+    ck.obligation("census: on the span write path (OTLP and Zipkin decoders, onSpan, the Tempo insert services, DateAppender) the only time.Time is built by onSpan with "
+                  "time.Unix (%d line(s), modelled: SpansZone.span_date_time) and nothing else reads the zone of the process or the clock -- the assumption under which "
+                  "decode_in_zone is the write path in a process of another zone" % len(makers), bool(body) and len(makers) >= 1 and not found, "; ".join(found[:6]) or "onSpan not found")
+
+
 def run_replay(ck):
     """bin/check C06 --replay <file>: re-run the request of a replay file through the real code and both comparisons"""
     obj = json.load(open(ck.replay))
@@ -785,4 +821,5 @@ def run(ck):
         "doubles are multiples of 1/8 below 2^53 (exact in binary and in six decimals)",
     ]
     ck.coq_props()
+    run_zone_census(ck)
     run_spans(ck)
